@@ -50,9 +50,10 @@ pub const CLUSTER_PROPS: &[PropSpec] = &[
             ("c09.conf_entries_applied", 9000),
             ("c02.stalled_apply_scenarios_grown", 100),
             ("c02.forgotten_vote_reached", 60),
+            ("c06.stranger_vote_then_self_elected_before_ready", 15),
         ],
         rule: "cluster engine, election-heavy profiles; a case is a node observed in the leader role checked against leader_of[term]; distinct by abstract state of the new leader (role history, log tail vs. commit, configuration shape)",
-        counter_prefixes: &["app.", "c02.", "c03.requests", "c06.vote_grants", "crash", "restarts", "c09.conf_entries_applied", "c16.candidacies"],
+        counter_prefixes: &["app.", "c02.", "c06.stranger", "c03.requests", "c06.vote_grants", "crash", "restarts", "c09.conf_entries_applied", "c16.candidacies"],
     },
     PropSpec {
         id: "C03",
@@ -108,6 +109,7 @@ pub const CLUSTER_PROPS: &[PropSpec] = &[
             ("crash@after_write", 6000),
             ("crash@after_fsync", 1500),
             ("crash@after_send_persisted", 1500),
+            ("c06.stranger_vote_then_self_elected_before_ready", 10),
         ],
         rule: "cluster engine, crash at every pipeline sub-step; a case is a message released by the contract-abiding application judged against the durable image (immediate / light) or what was handed out for persistence (gated), plus restart cross-checks; distinct by (message type, class, reject, durable-term relation, app mode, group shape)",
         counter_prefixes: &["c06.", "crash", "restarts", "fsyncs"],
